@@ -9,7 +9,9 @@ CONSTANTS
   MaxCrashes = 1
   Order <- OrderCode
   SimLen = 50
-  CrashOdds = 1
+  CrashAny = TRUE
+  MaxK = 1
+  RestartOdds = 1
   MaxPend = 2
 INIT GInit
 NEXT GNext
